@@ -45,4 +45,25 @@ theorem C18_new_session_delivers_only_new_items {s : St} {a : Sp} (r : Reach s a
     | cons op ops ih => intro s a r h; exact ih _ _ (Reach.step op r h.1) h.2
   exact (this ops _ _ hr hops).fifo
 
+/-- Tie to the source of construction and split (regenerated from `impl_splits!`, the buffers' `_from`, the iterators' `new`,
+`From<Vec<T>> for HeapStorage`, `get_range_max`, `impl_rb!`): every split creates exactly the iterators of its kind, in
+producer–(worker)–consumer order, and sets exactly their liveness flags; a stack split — the only one that can be repeated —
+first resets all three published indices to 0 (defect D4, fixed); both buffer variants start with indices 0, flags false,
+counter 0, the storage's length and refuse an empty storage; fresh iterators start at index 0 with nothing remembered; a
+heap buffer built from a vector has the vector's *length* (`into_boxed_slice`), `default`/`new_zeroed` have the requested
+capacity (rounded up to pages only under `vmem`). This is what `St.init` and the `resplit` step of the machine assume. -/
+theorem C18_source_construction :
+    Gen.splits.map (fun s => (s.storage, s.withWorker)) = [(.heap, false), (.heap, true), (.stack, false), (.stack, true)] ∧
+    (∀ s ∈ Gen.splits, s.storage = .stack → s.resets = [.prod, .work, .cons]) ∧
+    (∀ s ∈ Gen.splits, s.iters = (if s.withWorker then [.P, .W, .C] else [.P, .C]) ∧ s.alive = s.iters) ∧
+    (∀ s ∈ Gen.splits, s.bufRef = (if s.storage = .heap then "new" else "from_ref")) ∧
+    Gen.concInit = { idxZero := true, flagsFalse := true, counterZero := true, lenIsStorageLen := true, refusesEmpty := true } ∧
+    Gen.localInit = Gen.concInit ∧ Gen.iterNewZero = [true, true, true] ∧
+    Gen.pinHeapFromVec = "{Self::from(value.into_boxed_slice())}" ∧
+    Gen.pinRangeMax = "{#[cfg(feature='vmem')]returnsuper::vmem_helper::get_page_size_mul(capacity);#[cfg(not(feature='vmem'))]returncapacity;}" ∧
+    Gen.pinHeapRbCtors = [("from", "{Self::_from(HeapStorage::from(value))}"),
+      ("new_zeroed", "{Self::_from(HeapStorage::from((0..get_range_max(capacity)).map(|_|UnsafeSyncCell::new_zeroed()).collect::<Box<[UnsafeSyncCell<T>]>>()))}"),
+      ("default", "{Self::from(vec![T::default();get_range_max(capacity)])}")] := by
+  refine ⟨rfl, by decide, by decide, by decide, rfl, rfl, rfl, rfl, rfl, rfl⟩
+
 end MRB.Props.C18
